@@ -3,7 +3,7 @@ sys.path.insert(0, os.path.join(os.path.dirname(os.path.abspath(__file__)), '..'
 sys.path.insert(0, os.path.dirname(os.path.abspath(__file__)))
 from cpu_common import *
 
-ONLY = r'^(A|F|B|C|D|E|H|L|SP|PC|F-low-nibble|memory|IME|IE-IF-untouched|halted|stopped|haltbug)$'
+ONLY = r'^(A|F|B|C|D|E|H|L|SP|PC|F-low-nibble|memory|IME|EI-latch|IE-IF-untouched|halted|stopped|haltbug)$'
 
 
 def main(tier):
